@@ -102,6 +102,14 @@ VPATHS = ["lambda", "list", "from_vector", "from_sympy_vector"]     # every way 
 SPATHS = ["lambda", "value", "from_expression"]                     # every way a ScalarField can be constructed
 
 
+def py_number(e):
+    """a SymPy number as the plain Python int / float a user's callable would return"""
+    e = sympy.sympify(e)
+    if not e.is_number:
+        raise ValueError(f"construction path needs a constant, got {e}")
+    return int(e) if e.is_Integer else float(e)
+
+
 def scalar_field(cs, fn, path="lambda"):
     """fn : three coordinate expressions -> expression.  `path` = how the ScalarField object is constructed:
     point function, stored value (number or expression in the base scalars), ScalarField.from_expression."""
@@ -109,6 +117,13 @@ def scalar_field(cs, fn, path="lambda"):
     if path == "lambda":
         return ScalarField(lambda p: fn(*coords_of(p)), cs)
     e = sympy.sympify(fn(*cs.coord_system.base_scalars()))
+    if path == "pynum":          # a callable that returns a plain Python int / float (ScalarField.__call__ does not sympify)
+        v = py_number(e)
+        return ScalarField(lambda p: v, cs)
+    if path == "missing":        # a callable that returns a coordinate the point does not have: Point.coordinate -> int 0
+        if e != 0:
+            raise ValueError("the 'missing' path builds the zero field")
+        return ScalarField(lambda p: p.coordinate(3), cs)
     if path == "value":
         return ScalarField(e, cs)
     if path == "from_expression":
@@ -123,6 +138,12 @@ def vector_field(cs, fns, path="lambda"):
     if path == "lambda":
         return VectorField(lambda p: [fn(*coords_of(p)) for fn in fns], cs)
     es = [sympy.sympify(fn(*cs.coord_system.base_scalars())) for fn in fns]
+    if path == "pynum":          # a callable returning a list of plain Python numbers
+        vs = [py_number(e) for e in es]
+        return VectorField(lambda p: list(vs), cs)
+    if path == "missing":        # zero components are coordinates the point does not have (Python int 0), others Python numbers
+        vs = [None if e == 0 else py_number(e) for e in es]
+        return VectorField(lambda p: [p.coordinate(3 + k) if v is None else v for k, v in enumerate(vs)], cs)
     if path == "list":
         return VectorField(es, cs)
     if path == "from_vector":
@@ -327,6 +348,25 @@ def generic_lemmas_system(ctx, s, lemmas, outputs):
             tr = cs.transformation_to_system(CoordinateSystem.System.CARTESIAN)
             for k_, e in enumerate(tr):
                 add(f"corr_map_{s}_{k_}", e, f"ev rho (X_of {S} {k_})", f"transformation_to_system[{s}->cartesian] component {k_}", tr)
+        # repeated components: two or three structurally IDENTICAL generic components, in every position pair
+        jl = lambda ks: "[" + "; ".join(f"TJ {k} 0 0 0" for k in ks) + "]"    # noqa: E731
+        for ks in ((1, 1, 2), (1, 2, 1), (2, 1, 1), (1, 1, 1), (1, 1)):
+            tag = "".join(map(str, ks))
+            for vp in ("lambda", "list"):
+                sfx = "" if vp == "lambda" else f"_{vp}"
+                fns_ = [gen[k] for k in ks]
+                d = run_div(cs, fns_, vp)
+                add(f"corr_div_{s}_rep{tag}{sfx}", d, f"ev rho ({div_model(s, d)} {jl(ks)})",
+                    f"divergence_operator[{s}] on components (f{', f'.join(map(str, ks))}) with repeats, built by {vp}", [d])
+            c = run_curl(cs, [gen[k] for k in ks])
+            for i, e in enumerate(c):
+                add(f"corr_curl_{s}_rep{tag}_{i}", e, f"ev rho (c3 {i} (curl {S} D {jl(ks)}))",
+                    f"curl_operator[{s}] on components (f{', f'.join(map(str, ks))}) with repeats, component {i}", c)
+        gdr = run_graddiv(cs, [gen[1], gen[1], gen[2]])
+        dsr = "div_sph_code D" if s == "sph" else f"div {S} D"
+        for i, e in enumerate(gdr):
+            add(f"corr_graddiv_{s}_rep112_{i}", e, f"ev rho (c3 {i} (grad {S} D ({dsr} {jl((1, 1, 2))})))",
+                f"gradient_operator(divergence_operator (f1, f1, f2))[{s}] component {i}", gdr + [sympy.tan(q[2])] * (s == "sph"))
         # second-order compositions through the real code, tied to the composed model formulas (all values)
         dsph = "div_sph_code D" if s == "sph" else f"div {S} D"
         try:
@@ -486,17 +526,19 @@ PARAM = {TT: Rational(7, 3)}
 
 
 def num(e, q, pt):
-    v = sympy.sympify(e).subs(dict(zip(q, pt)), simultaneous=True).subs(PARAM)
+    e = sympy.sympify(e)
+    e = e.xreplace({f: sympy.Rational(f) for f in e.atoms(sympy.Float)})      # a Python float is the dyadic rational it denotes
+    v = e.subs(dict(zip(q, pt)), simultaneous=True).subs(PARAM)
     v = sympy.N(v, 40)
     if not (v.is_number and v.is_finite):
         return None
     return v
 
 
-def close(a, b):
+def close(a, b, tol="1e-25"):
     if a is None or b is None:
         return False
-    return bool(abs(a - b) <= sympy.Float("1e-25") * (1 + abs(b)))
+    return bool(abs(a - b) <= sympy.Float(tol) * (1 + abs(b)))
 
 
 def inverse_map(s):
@@ -617,7 +659,7 @@ def spec_case(kind, s, fields, pts, path="lambda", sysobj=None, variant="default
             return {"component": i, "point": None, "observed": str(a), "expected": f"an expression in {q}",
                 "foreign_base_scalars": [str(b) for b in foreign], "observed_expr": str(a)}
     for i, (va, vb) in enumerate(extra):
-        if not close(va, vb):
+        if not close(va, vb, "1e-12"):      # apply(point) may already have evaluated Python floats in double precision
             return {"component": i % 3, "point": "result field applied to the point", "observed": str(va), "expected": str(vb),
                 "observed_expr": "curl_operator(F).apply(point)"}
     for pt in pts:
@@ -653,6 +695,24 @@ def curated_cases(only=None):
             out.append({"kind": kind, "sys": s, "variant": variant, "path": "lambda", "flavour": "curated",
                 "fields": [CURATED_SCALAR[s]] if scalar else (CURATED_VECTOR2 if kind.endswith("_local") and kind[:2] in ("cu", "gr")
                     and kind != "curl_local" else CURATED_VECTOR)[s], "points": CURATED_POINTS[s]})
+        # two or three IDENTICAL non-constant components, in every position pair
+        e1, e2 = CURATED_VECTOR[s][0], CURATED_VECTOR[s][2]
+        reps = [[e1, e1, e2], [e1, e2, e1], [e2, e1, e1], [e1, e1, e1], [e1, e1]]
+        for k, f in enumerate(reps):
+            for kind in ("div_local", "curl_local") + (("graddiv_local", "divcurl") if k == 0 else ()):
+                if only is None or (kind, s) in only:
+                    out.append({"kind": kind, "sys": s, "variant": VARIANTS[k % 2], "path": VPATHS[k % len(VPATHS)],
+                        "flavour": "curated-repeated", "fields": f, "points": CURATED_POINTS[s]})
+        # callables that return plain Python numbers (int, float) or a coordinate the point does not have (int 0)
+        for kind, fields, path in [("grad_local", ["5"], "pynum"), ("grad_local", ["1/2"], "pynum"), ("grad_local", ["0"], "missing"),
+                ("curlgrad", ["5"], "pynum"), ("divgrad_local", ["1/2"], "pynum"), ("divgrad_local", ["0"], "missing"),
+                ("div_local", ["1", "1/2", "0"], "pynum"), ("div_local", ["0", "2", "0"], "missing"),
+                ("div_local", ["3"], "pynum"), ("curl_local", ["1", "1/2", "-2"], "pynum"),
+                ("curl_local", ["0", "0", "3/2"], "missing"), ("divcurl", ["1", "1/2", "-2"], "pynum"),
+                ("pad_curl", ["2", "1/2"], "pynum")]:
+            if only is None or (kind, s) in only:
+                out.append({"kind": kind, "sys": s, "variant": "default", "path": path, "flavour": "curated-pynumber",
+                    "fields": fields, "points": CURATED_POINTS[s]})
     return out
 
 
@@ -690,6 +750,9 @@ def spec_stream(ctx, n_per, only=None):
                     nc = 3 if j < 2 else 1 + j % 3
                     fields = [sympy.Integer(rng.choice([-3, -1, 1, 2])) if j % 2 == 0 else rand_curv_field(rng, s)
                         for _ in range(nc)]
+                if j % 5 == 4 and len(fields) == 3 and kind != "grad":       # repeat one component in a seeded position pair
+                    a_, b_ = rng.sample(range(3), 2)
+                    fields[b_] = fields[a_]
                 # every way of constructing the field object is rotated through; stored values / value lists first
                 scalar_kind = kind in ("grad", "curlgrad", "grad_local")
                 paths = SPATHS if scalar_kind else VPATHS
